@@ -102,9 +102,23 @@ def eval_case(spec, case, traces, out, record=True):
 
 
 def shrink(spec, binp, case, seed, kind, budget=60):
-    """delta-debug the symbolic op list, keeping a failure of the same kind"""
+    """delta-debug the symbolic op list, keeping a failure of the same kind (within three minutes, and with a short
+    limit per attempt: shrinking is a convenience for the reader of the replay, not part of the verdict)"""
+    t_end = time.time() + 180
     def fails(ops):
+        if time.time() > t_end:
+            return False
         c = Case(case.name, ops, case.meta, mode=case.mode)
+        old_to = os.environ.get("TSS_SHARD_TIMEOUT")
+        os.environ["TSS_SHARD_TIMEOUT"] = "40"
+        try:
+            return fails_inner(c)
+        finally:
+            if old_to is None:
+                os.environ.pop("TSS_SHARD_TIMEOUT", None)
+            else:
+                os.environ["TSS_SHARD_TIMEOUT"] = old_to
+    def fails_inner(c):
         try:
             tr = {b: run_cases(binp, [c], b, seed, shards=1).get(c.name, []) for b in spec.backends if c.meta.get("only", b) == b}
         except Exception:
@@ -252,7 +266,9 @@ def finish(spec, tier, seed, proof, out, problems, binp, t0, ncases, extra_cov=N
             continue
         reported.add(kind)
         ops = c.ops
-        if binp and hasattr(spec, "backends") and not getattr(spec, "no_shrink", False):
+        hangs = any("stopped answering" in m for k, m, *_ in pr if k == kind)
+        if binp and hasattr(spec, "backends") and not getattr(spec, "no_shrink", False) and not hangs and c.mode != "bin":
+            # (a case in which the implementation stops answering costs a full time limit per attempt: it is reported as it is)
             try:
                 ops = shrink(spec, binp, c, seed, kind)
             except Exception as e:
